@@ -147,6 +147,7 @@ class Opts(object):
         self.equal_shapes_p = 0.0        # chance that all channels share counts (index de-duplication)
         self.huge_p = 0.0                # chance per world of one channel chunk above 1 MiB (block / buffer sizes)
         self.short_last_p = 0.0          # chance per eligible segment of a stated short final chunk ("less data than expected")
+        self.long_run_p = 0.0            # chance per world of 100-260 consecutive metadata-less segments (a streamed file)
         self.__dict__.update(kw)
 
 
@@ -188,6 +189,13 @@ def gen_spec(rng, o):
     equal_shapes = rng.random() < o.equal_shapes_p
     huge = rng.random() < o.huge_p
     huge_done = False
+    run_left = 0
+    run_at = None
+    if o.long_run_p and rng.random() < o.long_run_p:
+        nseg = rng.randint(2, 4)
+        run_at = rng.randint(1, nseg - 1)
+        run_len = rng.randint(100, 260)
+        nseg += run_len
     common_count = rng.randint(1, o.max_count)
     spec = {'version': o.version or rng.choice([4712, 4713]), 'names': names, 'segments': []}
     active = []       # [path, has, idx]
@@ -199,6 +207,11 @@ def gen_spec(rng, o):
         e = endian_mode if endian_mode != 'mixed' else rng.choice('<>')
         seg['endian'] = e
         meta = k == 0 or rng.random() >= o.p_no_meta
+        if run_at is not None and k == run_at:
+            run_left = run_len
+        if run_left > 0 and any(a[1] for a in active):
+            meta = False       # a long run of raw-data-only segments re-using one object list
+            run_left -= 1
         seg['meta'] = meta
         light = nseg > 20      # keep giant files cheap
         if meta:
@@ -329,6 +342,8 @@ def gen_spec(rng, o):
             chunks = 0 if r < 0.08 else (1 if r < 0.5 else rng.randint(2, o.max_chunks))
             if (light or chunk_bytes > 2**20) and chunks > 1:
                 chunks = 1
+            if run_at is not None and not meta and chunk_bytes < 4096:
+                chunks = rng.choice([1, 1, 1, 1, 2, 3])      # streamed segments of unequal length
         seg['chunks'] = chunks
         short = None
         if o.short_last_p and chunks >= 1 and data_objs and rng.random() < o.short_last_p:
